@@ -2457,7 +2457,15 @@ func (b *recBatch) tryBuffer(pr promisedRec, produceVersion, maxBatchBytes int32
 	nums := b.calculateRecordNumbers(pr.Record)
 
 	batchWireLength, _, _ := b.wireLengthForProduceVersion(produceVersion)
-	newBatchLength := batchWireLength + nums.wireLength()
+	recordWireLength := nums.wireLength()
+	if produceVersion < 3 {
+		// Message sets (or we do not know our version yet): a
+		// message is larger than a record.
+		if l := messageSet1Length(pr.Record); l > recordWireLength {
+			recordWireLength = l
+		}
+	}
+	newBatchLength := batchWireLength + recordWireLength
 
 	if b.frozen || newBatchLength > maxBatchBytes {
 		return false, false
